@@ -79,8 +79,21 @@ def flag_consistency(F, R):
                     elif d_[2] == 'call' and re.search(r'Seconds::is_zero$', callee_name(d_[3]) or ''):
                         okset = okset or neg % 2 == 1
                         break
+                    elif d_[2] == 'call' and re.search(r'Seconds::non_zero$', callee_name(d_[3]) or ''):
+                        okset = okset or neg % 2 == 0
+                        break
                     else:
                         break
+            if not sets_ and key == 'Dispatcher::new':
+                # the constructor hands the configured value to the builder method checked next: every return passes that
+                # call and returns its result
+                ks = [bi for bi, t in b.calls_to(r'^io::Dispatcher::<P, C, U, E>::keepalive_timeout$')]
+                via = len(ks) == 1 and all(b.must_pass(ks, rb) for rb in b.returns()) and \
+                    any(l[0] == 'call' and l[2] == ks[0] for l in Origin(b).of_operand({'mv': {'l': 0, 'p': []}}))
+                if via:
+                    for what in ('tests timeout.is_zero()', 'non-zero=>KA_ENABLED', 'zero=>KA_ENABLED-cleared'):
+                        R.ob('C20.flag-consistency', '%s|%s' % (key, what), True, '', b.loc(ks[0]))
+                    continue
             R.ob('C20.flag-consistency', '%s|tests timeout.is_zero()' % key, len(sets_) == 1 and okset, 'found no is_zero test and no `flags.set(KA_ENABLED, !timeout.is_zero())` (%d set calls)' % len(sets_))
             R.ob('C20.flag-consistency', '%s|non-zero=>KA_ENABLED' % key, len(sets_) == 1 and okset, 'KA_ENABLED must be set exactly for a non-zero keep-alive')
             R.ob('C20.flag-consistency', '%s|zero=>KA_ENABLED-cleared' % key, len(sets_) == 1 and okset, 'with a zero keep-alive the KA_ENABLED flag must be cleared')
